@@ -267,12 +267,28 @@ func cmdCheck(args []string) int {
 	for _, n := range m.Notes {
 		fmt.Println("note:", n)
 	}
+	{
+		ks := []string{}
+		for k := range m.Counters {
+			if strings.HasPrefix(k, "violating_cases_by_class:") {
+				ks = append(ks, k)
+			}
+		}
+		sort.Strings(ks)
+		for _, k := range ks {
+			fmt.Printf("  %s = %d\n", k, m.Counters[k])
+		}
+	}
 	if m.Broken != "" {
 		fmt.Fprintf(os.Stderr, "BROKEN CHECK %s: %s\n", id, m.Broken)
 		return 2
 	}
 	if len(m.Violations) > 0 {
-		for _, v := range m.Violations {
+		for i, v := range m.Violations {
+			if i >= 12 {
+				fmt.Printf("... %d more recorded violations (see evidence/replays)\n", len(m.Violations)-i)
+				break
+			}
 			fmt.Printf("VIOLATION property=%s replay=%s\n", id, v.Replay)
 			d := v.Detail
 			if len(d) > 1500 {
